@@ -2,7 +2,7 @@
 import kcp_common as K
 
 META = {
-    "enabled": False,
+    "enabled": True,
     "engine": "kcp",
     "technique": "Coq proofs of the flow-control building blocks (standstill, probe timer, WASK answered, reopen announced, window update) for all reachable states; resumption under lossy WASK/WINS/ACK decided by simulation of the real cores (partial)",
     "level_text": "Proved for every reachable state: with a zero remote window no flush numbers or transmits a new segment; the probe timer arms at 500 ms, fires a WASK when due and backs off by half up to 120 s (bounds invariant over all operation sequences); a WASK sets the tell flag and the next flush of either kind sends WINS with the true free window; a Recv that takes the delivery queue from full to not full schedules a WINS; any regular segment updates rmt_wnd and a full flush then admits queued data. No loss/no bloat while stalled are the C01 and C04 theorems. PARTIAL: 'transfer resumes and completes although every WASK/WINS/ACK of a finite period is lost' is decided on the real cores (pause point x pause length x rcv_wnd 1..32 x control-datagram loss window x reordering, with and without congestion control).",
